@@ -79,7 +79,7 @@ func (vfs *MemFS) VerifCheck() []string {
 				fileRefs[c] = append(fileRefs[c], p)
 			case *symlinkNode:
 				if c.link == "" {
-					out = append(out, fmt.Sprintf("deleted symlink node still referenced at %q", p))
+					out = append(out, fmt.Sprintf("symlink node without target at %q", p))
 				}
 			}
 		}
